@@ -78,6 +78,23 @@ class ClassModel:
                     return self._method(n, c)
         return None
 
+    _NOATTR = object()
+
+    def class_attr(self, cname: str, attr: str) -> Any:
+        """A class-level attribute: evaluated once and shared by every model instance, as in Python."""
+        if not hasattr(self, "_class_attrs"):
+            self._class_attrs: dict[tuple[str, str], Any] = {}
+        for c in self._mro(cname):
+            key = (c, attr)
+            if key in self._class_attrs:
+                return self._class_attrs[key]
+            for n in self.classes[c].body:
+                tgt = n.targets[0] if isinstance(n, ast.Assign) and len(n.targets) == 1 else n.target if isinstance(n, ast.AnnAssign) and n.value is not None else None
+                if isinstance(tgt, ast.Name) and tgt.id == attr:
+                    self._class_attrs[key] = self._ev().ev(n.value)
+                    return self._class_attrs[key]
+        return self._NOATTR
+
     def match_args(self, cname: str) -> tuple | None:
         for c in self._mro(cname):
             for n in self.classes[c].body:
